@@ -14,7 +14,7 @@ CONFIGS = [
                     Menu={'instant', 'open', 'do', 'cancel', 'raise', 'put', 'get', 'qclose'})),
     # the OWNER of the read mutex (a volatile child waiting for an item) is closed forcefully when its block is left,
     # while another receiver is queued behind it: the mutex must be handed on, the next item goes to that receiver
-    ('close_owner', dict(B, NRoots=2, MaxActs=3, RootOps=6, TaskOps=1, MaxScopes=1, _full=100000,
+    ('close_owner', dict(B, NRoots=2, MaxActs=3, RootOps=6, TaskOps=1, MaxScopes=1, _full=40000,
                          Menu={'open', 'do', 'do_volatile', 'leave', 'instant', 'put', 'get'})),
 ]
 THOROUGH = CONFIGS + [
